@@ -7,13 +7,15 @@ cd "$(dirname "$0")"; ROOT="$(pwd)"
 ./check setup || exit 2
 export VERIF_ROOT="$ROOT" VERIF_EVIDENCE_DIR="$ROOT/target/sweep-out/evidence" VERIF_REPLAY_DIR="$ROOT/target/sweep-out/replays"
 mkdir -p "$VERIF_EVIDENCE_DIR" "$VERIF_REPLAY_DIR"
-mode="${3:-quick}"
+. "$ROOT/runs_table.sh"
+mode="${3:-quick}"   # quick | thorough | <seconds> | x<k> (k times the quick run count, no wall-clock cap)
 for s in $1; do
   for p in $2; do
     case "$p" in C20|C21) bin="$ROOT/target/osim/release/osim";; C18|C22|C23|C24) bin="$ROOT/target/dsim/release/dsim";; *) bin="$ROOT/target/small/release/wsim";; esac
     t0=$(date +%s)
     case "$mode" in
       quick|thorough) out=$(VERIF_SEED=$s ${4:+VERIF_START_INDEX=$4} "$bin" run $p $mode 2>&1); code=$? ;;
+      x*) out=$(VERIF_SEED=$s VERIF_BUDGET_S=20000 VERIF_MAX_RUNS=$(( ${mode#x} * $(quick_runs $p) )) "$bin" run $p quick 2>&1); code=$? ;;
       *) out=$(VERIF_SEED=$s VERIF_BUDGET_S=$mode "$bin" run $p quick 2>&1); code=$? ;;
     esac
     echo "== seed=$s $p $mode exit=$code $(( $(date +%s) - t0 ))s $(echo "$out" | grep -E '^(wsim|dsim|osim): [0-9]' | head -1)"
